@@ -6,6 +6,8 @@ import BertE.Lemmas.QueueExtract
 import BertE.Lemmas.QueueProcess
 import BertE.Lemmas.QueueSpec
 import BertE.Drv.C05
+import BertE.Lemmas.SelectSpec
+import BertE.Props.C03
 /-
 C05 — a queue evaluation merges the longest all-green prefix, in order.
 
@@ -290,5 +292,108 @@ example : (process (fun _ _ => .failed) [([10, 0], [2, 1])] [[[10, 0]]] false).p
       have : e = ([10, 0], [2, 1]) := by simpa using he
       subst this
       exact absurd hh (by decide))).1
+
+end BertE.C05
+
+/-! ### C05 at system level: the statement on the state of the system model, the selection computed
+
+`Select.selectOf s b false` = the model of `QueueCollection._process` run on the collection (`queuesOfSys`), the
+merge paths and the statuses of the system state `s` under the build-status table `b` of the host.
+`Select.mainQueue s` / `Select.entriesOn s d` are sub-lists of `s.queue` (the queued pull requests in order of
+entry): the pull requests that are not on a hotfix branch / the pull requests on the hotfix branch `d`.
+`Select.Green b s sel`: on every destination the queue commit of the newest pull request of `sel` that targets it
+has a SUCCESSFUL build (`C03.HeadsGreen`). -/
+namespace BertE.C05
+open BertE.Git BertE.Flow BertE.Select
+
+/-- **C05 on the system state.** For every state that satisfies the invariant of the system model (and on which
+    `validate()` passed, `Validated`) and every build-status table, the queue evaluation without force merge selects
+    * a prefix of the queue in order of entry: the first `n` pull requests of the main queue and, independently,
+      the first `nh d` pull requests of every hotfix queue `d` (second clause);
+    * that is green (third clause) and the longest green one: no longer prefix of the main queue is green
+      (fourth clause); the same for every hotfix queue on its own (fifth clause);
+    and every destination branch lands exactly on the queue commit of the newest selected pull request that
+    targets it (last clause, `C03_queue_exact`: at every crash point, with any refused ref), a commit whose build is
+    SUCCESSFUL (sixth clause). -/
+theorem C05_sys (s : Sys) (h : Flow.Inv s) (hv : Validated s) (b : Builds) :
+    ∃ (n : Nat) (nh : Dest → Nat),
+      n ≤ (mainQueue s).length ∧
+      selectOf s b false =
+        (hotDests s).flatMap (fun d => ((entriesOn s d).take (nh d)).map (·.pr)) ++
+          ((mainQueue s).take n).map (·.pr) ∧
+      Green b s (((mainQueue s).take n).map (·.pr)) ∧
+      (∀ k, n < k → k ≤ (mainQueue s).length → ¬ Green b s (((mainQueue s).take k).map (·.pr))) ∧
+      (∀ d ∈ hotDests s, nh d ≤ (entriesOn s d).length ∧
+        Green b s (((entriesOn s d).take (nh d)).map (·.pr)) ∧
+        ∀ k, nh d < k → k ≤ (entriesOn s d).length → ¬ Green b s (((entriesOn s d).take k).map (·.pr))) ∧
+      C03.HeadsGreen b s (selectOf s b false) ∧
+      ∀ (rej : Ref → Bool) (k : Nat) (d : Dest),
+        (C01.observable s (planQueues s (selectOf s b false)) rej k).get (.dest d) = s.remote.get (.dest d) ∨
+        ∃ e, lastTargeting (C03.selected s (selectOf s b false)) d = some e ∧
+          (C01.observable s (planQueues s (selectOf s b false)) rej k).get (.dest d) = qwOf s.remote e d := by
+  have hlen : (Queue.mainOrder (queuesOfSys s)).length = (mainQueue s).length := by
+    rw [mainOrder_queuesOfSys h hv, List.length_map]
+  refine ⟨Queue.Spec.mainN (queuesOfSys s) (stOfSys b s),
+    fun d => Queue.Spec.hotfixN (stOfSys b s) (versionOf d) (idsOn s d), ?_, ?_, ?_, ?_, ?_,
+    C03.C03_heads_green_closed s h hv b, fun rej k d => C03.C03_queue_exact s h.q.base _ rej k d⟩
+  · rw [← hlen]; exact Queue.Spec.longest_le _ _
+  · rw [selectOf_false_eq h hv b]
+    unfold Queue.Spec.prs
+    exact cut_queuesOfSys h hv _ _
+  · exact (mainGreen_iff h hv b _).mp
+      (Queue.Spec.longest_spec _ _ (Queue.Spec.mainGreen_zero (queuesOfSys s) (stOfSys b s)))
+  · intro k hk hkb hg
+    have h1 := (mainGreen_iff h hv b k).mpr hg
+    have h2 := Queue.Spec.longest_none_longer (Queue.Spec.mainGreen (queuesOfSys s) (stOfSys b s))
+      (Queue.mainOrder (queuesOfSys s)).length k hk (by rw [hlen]; exact hkb)
+    rw [h1] at h2; cases h2
+  · intro d hd
+    have hdm := List.mem_filter.mp hd
+    have hdk : d ∈ keyDests s := mem_keyDests.mpr ⟨hdm.1, fun k hk => by
+      rw [hk, isHf_devDest] at hdm; exact absurd hdm.2 (by decide)⟩
+    have hl : (idsOn s d).length = (entriesOn s d).length := by
+      rw [idsOn_eq, List.length_reverse, List.length_map]
+    refine ⟨?_, ?_, ?_⟩
+    · rw [← hl]; exact Queue.Spec.longest_le _ _
+    · exact (hotfixGreen_iff h hv b hdk hdm.2 _).mp
+        (Queue.Spec.longest_spec _ _ (Queue.Spec.hotfixGreen_zero (stOfSys b s) (versionOf d) (idsOn s d)))
+    · intro k hk hkb hg
+      have h1 := (hotfixGreen_iff h hv b hdk hdm.2 k).mpr hg
+      have h2 := Queue.Spec.longest_none_longer (Queue.Spec.hotfixGreen (stOfSys b s) (versionOf d) (idsOn s d))
+        (idsOn s d).length k hk (by rw [hl]; exact hkb)
+      rw [h1] at h2; cases h2
+
+/-- with an admin force merge everything queued is selected, in order of entry -/
+theorem C05_sys_force (s : Sys) (h : Flow.Inv s) (hv : Validated s) (b : Builds) :
+    selectOf s b true =
+      (hotDests s).flatMap (fun d => (entriesOn s d).map (·.pr)) ++ (mainQueue s).map (·.pr) := by
+  rw [selectOf_true_eq h hv b]
+  unfold Queue.Spec.allPrs
+  have hlen : (Queue.mainOrder (queuesOfSys s)).length = (mainQueue s).length := by
+    rw [mainOrder_queuesOfSys h hv, List.length_map]
+  rw [cut_queuesOfSys h hv, hlen, List.take_length]
+  congr 1
+  apply Queue.flatMap_congr'
+  intro d _
+  have hl : (idsOn s d).length = (entriesOn s d).length := by
+    rw [idsOn_eq, List.length_reverse, List.length_map]
+  rw [hl, List.take_length]
+
+/-- Non-vacuity on the concrete state `exSys` (pull request 1 on development/4.3 and 5.1, pull request 2 on
+    development/5.1; queue commits of 1 SUCCESSFUL, of 2 FAILED): the main queue is [1, 2], the prefix of length 1
+    is green and the prefix of length 2 is not; the evaluation selects [1]; with force merge [1, 2]. -/
+example : (mainQueue exSys).map (·.pr) = [1, 2] ∧ hotDests exSys = [] ∧
+    selectOf exSys exBuilds false = [1] ∧ selectOf exSys exBuilds true = [1, 2] ∧
+    Green exBuilds exSys [1] ∧ ¬ Green exBuilds exSys [1, 2] := by
+  refine ⟨by decide, by decide, exSys_select.1, exSys_select.2.1, ?_, ?_⟩
+  · have := (mainGreen_iff exSys_inv exSys_validated exBuilds 1).mp (by decide)
+    exact this
+  · intro hg
+    have h2 := (mainGreen_iff exSys_inv exSys_validated exBuilds 2).mpr hg
+    revert h2
+    decide
+
+example := C05_sys exSys exSys_inv exSys_validated exBuilds
+example := C05_sys_force exSys exSys_inv exSys_validated exBuilds
 
 end BertE.C05
